@@ -213,7 +213,17 @@ func runAPIChild(sp caseSpec, dir string) {
 	if !waitFor(waitBegin, func() bool { return int(blockedStarted.Load()) >= nBefore }) {
 		w.harnessProblem("healthy requests did not reach their handlers")
 	}
-	s1 := w.snap()
+	// "Previous values" must be a settled reading: a single sample can catch a transient
+	// worker of the api module itself (e.g. its config-change event hook, which runs as a
+	// worker) and would then demand a value the counters legitimately never return to.
+	// Known by construction: idle accounting plus one "http request" worker per healthy
+	// request that is parked in its handler.
+	s1want := idle
+	s1want.Workers += nBefore
+	s1, okPrev := w.settle(s1want)
+	if !okPrev {
+		w.harnessProblem("the api module did not settle at idle + %d in-flight requests (reads %+v)", nBefore, s1)
+	}
 	w.keepSnap("s1_previous", s1)
 	w.fact("max_concurrent_healthy", nBefore)
 
